@@ -9,8 +9,6 @@ Local Open Scope Z_scope.
 (* a cell = (stored value, masked?) ; a masked cell's stored value is compared only where the
    library exposes it, i.e. never: equality below ignores the value of masked cells *)
 Definition cell := (Z * bool)%type.
-Definition unmask (c : cell) : cell := (fst c, false).
-Definition unmask0 (c : cell) : cell := if snd c then (0, false) else c.
 Definition cell_eqb (a b : cell) : bool :=
   Bool.eqb (snd a) (snd b) && (snd a || Z.eqb (fst a) (fst b)).
 Definition ovar := (list nat * list cell)%type.
@@ -38,27 +36,13 @@ Definition obs_eqb (m : option (file cell)) (o : option (list nat * list ovar)) 
   | _, _ => false
   end.
 
-Definition checkF (c : case_t) : bool := obs_eqb (impl_slice_file unmask unmask0 (to_file c) (c_kws c)) (c_obs c).
+Definition checkF (c : case_t) : bool := obs_eqb (impl_slice_file (to_file c) (c_kws c)) (c_obs c).
 Definition checkS (c : case_t) : bool := obs_eqb (spec_slice_file (to_file c) (c_kws c)) (c_obs c).
 
-(* region 0: every variable is inside the domain of the _partial theorems
-   region 1: some variable has an integer and a list selector separated by a slice axis
-   region 2: some zipped variable (>= 2 lists) also has an integer selector
-   region 3: two or more EMPTY lists
-   region 4: some zipped variable holds a masked cell *)
+(* region 0: everything (the property is proved for the model of the repaired code)
+   region 1: two or more EMPTY zipped lists (still raises; known finding) *)
 Definition region (c : case_t) : nat :=
   let ll := list_lens (c_kws c) in
-  let any := Nat.ltb 1 (length ll) in
-  match resolve_dims (c_dims c) (c_kws c) with
-  | None => 0%nat
-  | Some rdims =>
-    let rss := map (fun v => map (fun j => nth j rdims (RSlice [])) (fst v)) (c_vars c) in
-    let zipped rs := any && Nat.ltb 1 (length (filter is_list rs)) in
-    if any && Nat.eqb (hd 0%nat ll) 0 && forallb (Nat.eqb 0) ll then 3%nat
-    else if existsb (fun rs => negb (zipped rs) && negb (dom_var rs)) rss then 1%nat
-    else if existsb (fun rs => zipped rs && negb (dom_zip rs)) rss then 2%nat
-    else if existsb (fun v => zipped (map (fun j => nth j rdims (RSlice [])) (fst v)) && existsb snd (snd v)) (c_vars c) then 4%nat
-    else 0%nat
-  end.
+  if Nat.ltb 1 (length ll) && forallb (Nat.eqb 0) ll then 1%nat else 0%nat.
 
 Definition check (c : case_t) : verdict := (checkF c, checkS c, region c).
